@@ -12,7 +12,7 @@ import json
 
 from ..common import MachineryError, Verdict, require, scratch
 from ..corpus import library
-from ..proto import default_corpus, prepare_world, run_drivers_parallel
+from ..proto import default_corpus, full_corpus, prepare_world, run_drivers_parallel
 from .. import common
 from ._proto_common import short, strip_kinds, strip_sizes
 from .c02 import collect
@@ -22,10 +22,10 @@ PROP = "C01"
 
 def run(tier, corrupt=False):
     v = Verdict(PROP, tier)
-    progs = default_corpus()
     types = library()
-    rt_progs = [p for p in progs if p.get("rt")]
     with scratch("c01-") as tmp:
+        progs = full_corpus(tmp, tier)
+        rt_progs = [p for p in progs if p.get("rt")]
         recs, stats = collect(tier, tmp, progs, types, "rt", rich=False, invariants=("PRoundTrip", "PInBounds", "POnlyDocumentedError"),
                               properties=("PDModeRestored", "PModeRestored"), tag="rt", emit_withsize=False)
         require(stats["action_counts"]["ToDeser"] > 0 and stats["action_counts"]["DeReturn"] > 0, "vacuity: no round trip completed in the model")
@@ -33,6 +33,9 @@ def run(tier, corrupt=False):
         require(len(recs) > 1000, f"too few behaviours from TLC ({len(recs)})")
         seen = {r["prog"] for r in recs}
         require(all(p["name"] in seen for p in rt_progs), "some wire-unambiguous program produced no behaviour")
+        # SpecGen programs: wire-unambiguous (within the bound) iff the MODEL round-trips every lossless object
+        ambiguous = {r["prog"] for r in recs if not r["rt_ok"]}
+        recs = [r for r in recs if r["prog"] not in ambiguous]
         with scratch("c01w-") as wt:
             src, accepted, rejected = prepare_world(wt, progs, types)
             for p, e in rejected:
@@ -72,7 +75,8 @@ def run(tier, corrupt=False):
                 elif d.get("nested_size_mismatch"):
                     v.violation(key, f"byte_size of nested objects differs from the bytes they occupy: {d['nested_size_mismatch'][:3]} (class, byte_size, bytes)", case)
     cov = dict(stats)
-    cov.update({"traces_validated_against_impl": n, "programs": len(rt_progs), "programs_excluded_as_ambiguous": [p["name"] for p in progs if not p.get("rt")],
+    cov.update({"traces_validated_against_impl": n, "programs": len(rt_progs), "programs_excluded_as_ambiguous": [p["name"] for p in progs if not p.get("rt")] , "generated_programs_classified_ambiguous_by_the_model": len(ambiguous),
+                "generated_programs_round_tripped": len({r["prog"] for r in kept if r["prog"].startswith("G")}),
                 "samples": [{"prog": kept[0]["prog"], "obj": kept[0]["src"], "bytes": kept[0]["data"]}, {"prog": kept[-1]["prog"], "obj": kept[-1]["src"], "bytes": kept[-1]["data"]}],
                 "exhaustive": False,
                 "explanation": "all objects of the lossless bounded domains for every wire-unambiguous program of the corpus (tag re-checked by TLC on the model)"})
